@@ -192,6 +192,18 @@ CHECKS = {
         note='Two genuine defects repaired (half-anchored alternations in four processors; find_replace turning null into the text None). add_field is covered through C10/C02.',
         technique='TLA+ definitions (regex semantics included) model-checked with TLC; every exported case replayed on the real processors',
         design='6/C15', specs=['ProcFields.tla', 'Regex.tla']),
+    'C16': dict(
+        level='model_checking',
+        text='ProcResources.tla defines concatenate (placed at the first selected resource, rows of the selected resources in order mapped '
+             'onto the target fields, null elsewhere), duplicate (exact copy after / at the end), delete_resource and appended sources with '
+             'rows identified by <<resource, row>> ids; TLC checks Conserve (nothing lost, nothing invented, exactly one extra copy) and '
+             'OthersUnchanged on all 11 568 cases (packages of <=3 resources x 4 field layouts x {0,2} rows x every consecutive selection / '
+             'subset / source / size) and on packages with 1100 rows per resource. Every exported case (quick: 2500 + the big ones) runs on '
+             'the real processors with duplicate batch sizes 1/2/1000, an in-place row edit placed after the step (aliasing), sources as '
+             'iterable / tuple load / sources(); two-step programs delete an output of the restructuring step; iterable sources appended after a delete.',
+        note='Selections are lists of names (selector forms are C10). One genuine defect repaired (iterable source named like an existing resource after a delete).',
+        technique='TLA+ definitions with id accounting model-checked with TLC; every exported case (incl. >1000-row resources) replayed on the real processors',
+        design='6/C16', specs=['ProcResources.tla']),
 }
 
 NOT_YET = 'check not built yet (build in progress, see DESIGN.md section 10)'
